@@ -410,6 +410,23 @@ def execute(it, st, db, sql, params):
 def select_row(it, st, db, sql, params):
     DB_OF[0] = db
     s = parse_sql(sql)
+    if s[0] == 'exists':
+        _, tn, where, nparam = s
+        t = db.tables.get(tn)
+        if t is None:
+            raise Unsupported('no such table ' + tn)
+        if len(params) != nparam:
+            return 'badparams', None
+        hit = False
+        for r in t.rows:
+            if r[0] is False:
+                continue
+            e = where_cond(t, r[1], where, params, t.rows.index(r))
+            e = conj([r[0], e]) if r[0] is not True else e
+            if e is not False and decide(it, st, e, '%s row satisfies the EXISTS' % tn):
+                hit = True
+                break
+        return 'row', Opaque('Row', cells=[('int', z3.BitVecVal(1 if hit else 0, 64))], names=[''])
     if s[0] != 'select':
         raise Unsupported('query_row of a %s statement' % s[0])
     _, tn, cols, where, nparam, _limit = s
@@ -440,6 +457,11 @@ def from_cell(c, ty):
         if c[0] != 'text':
             return err(rusqlite_err('InvalidColumnType'))
         v = Agg('StoredUuid', 'StoredUuid', 0, [c[1]])
+    elif inner == 'bool':
+        if c[0] != 'int':
+            return err(rusqlite_err('InvalidColumnType'))
+        v = z3.simplify(c[1] != z3.BitVecVal(0, 64))
+        v = True if z3.is_true(v) else (False if z3.is_false(v) else v)
     elif inner in ('i64',):
         if c[0] != 'int':
             return err(rusqlite_err('InvalidColumnType'))
